@@ -49,8 +49,12 @@ public:
         }
         configuration().setJid(jid);
         configuration().setPassword(QStringLiteral("pw"));
-        logger()->setLoggingType(QXmppLogger::SignalLogging);
-        QObject::connect(logger(), &QXmppLogger::message, this, [this](QXmppLogger::MessageType type, const QString &text) {
+        // a logger of its own: the default is the process-wide QXmppLogger::getLogger(), which would
+        // mix the records of several clients living in one harness
+        auto *ownLogger = new QXmppLogger(this);
+        ownLogger->setLoggingType(QXmppLogger::SignalLogging);
+        setLogger(ownLogger);
+        QObject::connect(ownLogger, &QXmppLogger::message, this, [this](QXmppLogger::MessageType type, const QString &text) {
             if (type == QXmppLogger::SentMessage) {
                 sent << text;
                 sentEnc << (d->stream->socket() && d->stream->socket()->isEncrypted());
@@ -120,6 +124,18 @@ public:
         sentEnc.clear();
         return r;
     }
+
+    // projections of private stream state (friend seam; read-only)
+    struct SmProbe {
+        bool avail, enabled, resumed, canResume;
+        int request;  // 0 none, 1 resume pending, 2 enable pending
+    };
+    SmProbe smProbe() const
+    {
+        auto &m = d->stream->c2sStreamManager();
+        return { m.m_smAvailable, m.m_enabled, m.m_streamResumed, m.m_canResume, int(m.m_request.index()) };
+    }
+    int listenerIndex() const { return int(d->stream->d->listener.index()); }
 
     static void resetIdCounter() { QXmppStanza::s_uniqeIdNo = 0; }
 
